@@ -57,9 +57,9 @@ func genBroadTransferNoPassthrough(t *rapid.T, w *world.World) kit.Transfer {
 	return kit.GenTransfer(t, w, kit.TransferOpt{
 		Route: kit.RouteOpt{
 			EnvValid:        chance(t, "envvalid", 85),
-			InternalClasses: []string{"plain", "plain", "plain", "plain-upper", "orbiter", "orbiter-upper", "dust", "blacklisted", "fresh", "module-warp", "long32", "short2"},
+			InternalClasses: []string{"plain", "plain", "plain", "plain-upper", "orbiter", "orbiter-upper", "dust", "blacklisted", "fresh", "module-warp", "long32", "short2", "blocked-pool"},
 		},
-		FeeClasses:     []string{"plain", "plain", "plain", "plain-upper", "orbiter", "orbiter-upper", "dust", "blacklisted", "fresh", "module-warp", "long32", "short2"},
+		FeeClasses:     []string{"plain", "plain", "plain", "plain-upper", "orbiter", "orbiter-upper", "dust", "blacklisted", "fresh", "module-warp", "long32", "short2", "blocked-pool"},
 		MaxActions:     1,
 		KeepBelowLimit: chance(t, "belowlimit", 90),
 	})
